@@ -28,6 +28,10 @@ pub enum Tamper {
     OtherKey,
     /// tampered atom AND the challenge re-derived from the tampered proof
     AtomRederive(u16, AtomChange),
+    /// C += δ·Y_i together with z_i += c·δ: the relation still holds, for the *other* commitment
+    /// (to m + δ·e_i under the same blinding factor); with `false` the response moves the other
+    /// way and the relation is broken
+    MovedRequest(u16, ScSpec, bool),
 }
 
 #[derive(Clone, Debug, Serialize, Deserialize, Hash, PartialEq, Eq)]
@@ -74,6 +78,7 @@ fn strategy(_t: Tier) -> impl Strategy<Value = Case> {
         1 => any::<u8>().prop_map(Tamper::OtherChallenge),
         1 => Just(Tamper::OtherKey),
         2 => (any::<u16>(), atom_change()).prop_map(|(i, c)| Tamper::AtomRederive(i, c)),
+        2 => (any::<u16>(), delta_spec(), prop_oneof![3 => Just(true), 1 => Just(false)]).prop_map(|(i, d, k)| Tamper::MovedRequest(i, d, k)),
     ];
     (0u8..6, 0u8..3, msg_specs(), any::<u64>(), tamper, any::<u16>(), delta_spec()).prop_map(
         |(n_idx, key, msg, seed, tamper, coord, delta)| Case {
@@ -246,6 +251,49 @@ fn run<const N: usize>(c: &Case, rec: &Rec) -> R {
             label = "other-key".into();
             rec.nontrivial((N, c.key, "other-key"));
         }
+        Tamper::MovedRequest(sel, d, keep) => {
+            let i = pick_idx(*sel, N);
+            let delta = nonzero(d);
+            let cs = ch.to_scalar();
+            let mut i2 = img.clone();
+            let com2 = reference_com + gs[i] * delta;
+            i2.set("commitment_proof.commitment", &com2.to_atom());
+            let zi = img.list("commitment_proof.message_response_scalars")[i];
+            let z = wire::sc(img.at(zi)).expect("z_i");
+            i2.set_at(zi, &(if *keep { z + cs * delta } else { z - cs * delta }).to_bytes());
+            let p2 = wire::dec::<SignatureRequestProof<N>>(&i2.bytes).map_err(|e| Fail::new("harness/moved-request-undecodable", e))?;
+            let zbf = i2.scalar("commitment_proof.blinding_factor_response_scalar");
+            let zs = i2.scalars("commitment_proof.message_response_scalars");
+            let tp = G1Projective::from(wire::g1(i2.get("commitment_proof.scalar_commitment")).expect("T"));
+            let reference = schnorr(&h, &gs, &com2, &tp, &zbf, &zs, &cs);
+            ensure!(reference == *keep, "harness/reference-disagrees-with-construction", "moved request: relation {} but constructed to be {}", reference, keep);
+            let got = p2.verify_knowledge_of_opening(pk, ch);
+            rec.eval(1);
+            match got {
+                None => {
+                    ensure!(!*keep, "C08/valid-request-rejected", "a request whose Schnorr relation holds (commitment and response moved together) was refused (N={})", N);
+                    label = "moved-request/relation-broken".into();
+                }
+                Some(vbm) => {
+                    ensure!(*keep, "C08/tampered-request-accepted", "request with commitment and response moved oppositely yields a blind-signable value (N={})", N);
+                    ensure!(
+                        Image::must(&commitment_of(&vbm)).bytes == com2.to_atom(),
+                        "C08/blind-signable-is-not-the-proven-commitment",
+                        "the blind-signable value is not the commitment the accepted proof is about (request moved to another commitment)"
+                    );
+                    let sig = vbm.blind_sign(&k.kp, &mut r).unblind(b);
+                    let mut m2 = m;
+                    m2[i] += delta;
+                    rec.eval(4);
+                    let on_new = sig.verify(pk, &Message::new(m2)) && ps_verify(&k.pk, &m2, &sig.sigma1(), &sig.sigma2());
+                    let on_old = sig.verify(pk, &Message::new(m)) || ps_verify(&k.pk, &m, &sig.sigma1(), &sig.sigma2());
+                    ensure!(on_new, "C08/unblinded-signature-invalid", "signature on the moved request does not verify on the tuple its commitment commits to");
+                    ensure!(!on_old, "C08/unblinded-signature-verifies-on-other-message", "signature on the moved request verifies on the original tuple");
+                    label = "moved-request/relation-kept".into();
+                }
+            }
+            rec.nontrivial((N, c.key, label.clone(), i));
+        }
         Tamper::SwapCT | Tamper::Atom(..) | Tamper::AtomRederive(..) => {
             let (bytes, what, rederive) = match &c.tamper {
                 Tamper::SwapCT => {
@@ -296,12 +344,37 @@ fn run<const N: usize>(c: &Case, rec: &Rec) -> R {
                         }
                         _ => false,
                     };
-                    ensure!(
-                        !reference,
-                        "harness/reference-disagrees-with-construction",
-                        "single-atom change {} left the Schnorr relation satisfied",
-                        what
-                    );
+                    if reference {
+                        // the changed atom is none the relation speaks about (a proof type carrying
+                        // further fields): the verifier may accept, but what it hands out must still be
+                        // the commitment the proof is about, and signing it must sign the proven tuple
+                        let in_relation = ["commitment", "scalar_commitment", "blinding_factor_response_scalar", "message_response_scalars"];
+                        ensure!(
+                            !in_relation.iter().any(|f| what.starts_with(&format!("{}:", f))),
+                            "harness/reference-disagrees-with-construction",
+                            "single-atom change {} left the Schnorr relation satisfied",
+                            what
+                        );
+                        rec.eval(1);
+                        if let Some(vbm) = p2.verify_knowledge_of_opening(pk, ch2) {
+                            ensure!(
+                                Image::must(&commitment_of(&vbm)).bytes == i2.get("commitment_proof.commitment"),
+                                "C08/blind-signable-is-not-the-proven-commitment",
+                                "after changing atom {} the blind-signable value is not the commitment the accepted proof is about",
+                                what
+                            );
+                            let sig = vbm.blind_sign(&k.kp, &mut r).unblind(b);
+                            ensure!(
+                                sig.verify(pk, &Message::new(m)) && ps_verify(&k.pk, &m, &sig.sigma1(), &sig.sigma2()),
+                                "C08/unblinded-signature-invalid",
+                                "after changing atom {} the blind signature does not verify on the proven tuple",
+                                what
+                            );
+                        }
+                        rec.class("tamper/atom-outside-the-relation");
+                        rec.nontrivial((N, c.key, what.clone()));
+                        return Ok(());
+                    }
                     let got = p2.verify_knowledge_of_opening(pk, ch2);
                     rec.eval(1);
                     if got.is_some() != reference {
@@ -332,8 +405,8 @@ fn oracle(c: &Case, rec: &Rec) -> R {
 pub fn checks() -> Vec<CheckDef> {
     vec![prop_check(
         "blind-sign",
-        "cases = (N, key, message over edge/random scalars, one of {honest request, one wire atom of the request replaced (shift/random/zero/neighbour), C<->T swapped, challenge from another transcript, other key, atom replaced + challenge re-derived}); oracle: honest => Some, blind-signable value == commitment atom of the request == independent Pedersen value, blind_sign+unblind verifies (library and reference pairing check) on the message and on no single-coordinate change; tampered => library verdict == independent Schnorr evaluation on the wire atoms (false by construction); non-trivial = honest with N>=2 and an edge entry, or any tampered case; distinct by (N, key, tamper label)",
-        &["honest"],
+        "cases = (N, key, message over edge/random scalars, one of {honest request, one wire atom of the request replaced (shift/random/zero/neighbour), C<->T swapped, challenge from another transcript, other key, atom replaced + challenge re-derived, commitment moved by delta*Y_i with the response moved together (relation kept for another commitment) or oppositely}); moved request kept => Some, value == the moved commitment, signature verifies on m+delta*e_i and not on m; oracle: honest => Some, blind-signable value == commitment atom of the request == independent Pedersen value, blind_sign+unblind verifies (library and reference pairing check) on the message and on no single-coordinate change; tampered => library verdict == independent Schnorr evaluation on the wire atoms (false by construction); non-trivial = honest with N>=2 and an edge entry, or any tampered case; distinct by (N, key, tamper label)",
+        &["honest", "moved-request/relation-kept", "moved-request/relation-broken"],
         (1200, 50_000),
         strategy,
         oracle,
